@@ -21,6 +21,7 @@ func init() {
 		Stub:           []string{"socket listeners"},
 		Assumptions:    []string{"authorized-server list, migration orders and live impact rates are not persisted by design and are excluded"},
 		RequiredProbes: []string{"hist.restart", "hist.conflict", "hist.rotation", "hist.catchup-multi", "c04.restart-with-ban", "c04.restart-unregistered"},
+		RequiredSites:  []string{"migrate.before-shift", "auth.after-write", "report.after-write", "gcakey.after-write"},
 	})
 }
 
